@@ -7,6 +7,8 @@
     restart <store>                            → the store after the start-up sequence
     restarted <k> <job>                        → the store after crash k and the start-up sequence
     rerun <k> <store> <hashes> <chunk> <op>    → outcome of op on restart(crash k) and the readable manifests after it
+    cov <job>                                  → the branch of the MODEL taken at each decision point of the op (coverage tags)
+    covrestart <k> <job>                       → which way the start-up sequence goes on the state after crash k
 
   <store>  := <n> (<path> <content>)*
   <path>   := B:<hex64> | T:<k> | P:<hex64> | R:<hex64>:<n> | M:<name>
@@ -188,6 +190,106 @@ def pJob : TP Job := do
   let op ← pOp
   pure ⟨st, mkEnv hs k (am != 0) (ap != 0) (np != 0), op⟩
 
+/-! ## branch coverage of the model (round 7)
+
+`cov <job>` names the branch the MODEL takes at every decision point of the operation, walking the
+operation with the model's own functions against the evolving store; the check counts the tags over
+all L1 `effects` lines and fails closed when a branch the theorems speak about is never exercised. -/
+
+def covNewLayer (env : Env) (pieces : List Bytes) (st : Store) : String :=
+  if present st (.blob (env.hash pieces.flatten)) then "nl.existing" else "nl.new"
+
+def covRemove : List Digest → Store → List String
+  | [], _ => []
+  | d :: rest, st =>
+    (if referenced st d then "lr.referenced" else if !present st (.blob d) then "lr.absent" else "lr.rm") ::
+      covRemove rest (run (layerRemove d st).effs st)
+
+def covUploads (env : Env) : Nat → List (Digest × Bytes) → Store → List String
+  | _, [], _ => []
+  | k, (d, body) :: rest, st =>
+    (if present st (.blob d) then ["upload.present"] else ["upload.absent", covNewLayer env (env.chunk body) st]) ++
+      covUploads env (k + 1) rest (run (upload env k d body st).effs st)
+
+def covNewLayers (env : Env) : Nat → List Bytes → Store → List String
+  | _, [], _ => []
+  | k, x :: rest, st => covNewLayer env [x] st :: covNewLayers env (k + 1) rest (run (newLayer env k [x] st).effs st)
+
+def covDownloads (env : Env) (reg : Digest → Option Bytes) : Nat → List Digest → Store → List String
+  | _, [], _ => []
+  | k, d :: rest, st =>
+    if present st (.blob d) then "dl.cachehit" :: covDownloads env reg (k + 2) rest st
+    else match reg d with
+      | none => ["dl.404"]
+      | some data =>
+        let tag := match get st (.part d 0) with
+          | some (.prec r) =>
+            if r.completed = r.size then "dl.resume-complete"
+            else if r.completed = 0 then "dl.resume-zero" else "dl.resume-mid"
+          | some _ => "dl.torn-record"
+          | none => if data.length = 0 then "dl.empty" else "dl.fresh"
+        let junk := match get st (.part d 0), get st (.pfile d) with
+          | none, some _ => ["dl.junk-partial"]
+          | _, _ => []
+        let a := download env k d data st
+        let av := a.andThen st (verify1 env d)
+        [tag] ++ junk ++ (if a.ok && !av.ok then ["dl.verify-mismatch"] else []) ++
+          (if av.ok then covDownloads env reg (k + 2) rest (run av.effs st) else [])
+
+def covOp (env : Env) (op : Op) (st : Store) : List String :=
+  let r := op.exec env st
+  let variant := (if env.atomicMan then "var.atomic-man" else "var.inplace-man") ::
+    (if env.noPrune then ["cfg.noprune"] else ["cfg.prune"])
+  let body := match op with
+    | .upload _ d body =>
+      if present st (.blob d) then ["upload.present"] else ["upload.absent", covNewLayer env (env.chunk body) st]
+    | .create n ups file datas cfg =>
+      let st1 := run (uploads env 0 ups st).effs st
+      let old := readable st1 n
+      covUploads env 0 ups st ++
+      (if !present st1 (.blob file) then ["create.nofile"] else
+        let st2 := run (newLayers env ups.length (datas ++ [cfg]) st1).effs st1
+        let st3 := run (writeManifest env (ups.length + datas.length + 1) n (createMan env file datas cfg st2)).effs st2
+        covNewLayers env ups.length (datas ++ [cfg]) st1 ++
+        (match old, get st1 (.man n) with
+          | some m, _ => "create.replace" :: (if env.noPrune then ["cleanup.skipped-noprune"] else covRemove (m.all.map Layer.digest) st3)
+          | none, some _ => ["create.over-torn"]
+          | none, none => ["create.new"]))
+    | .copy src dst =>
+      if src = dst then ["copy.self"] else
+      match get st (.man src) with
+      | none => ["copy.nosrc"]
+      | some c => [match c with | .man _ => "copy.src-readable" | _ => "copy.src-torn",
+                   if present st (.man dst) then "copy.over" else "copy.new"]
+    | .delete n =>
+      match readable st n with
+      | none => [if present st (.man n) then "delete.torn" else "delete.missing"]
+      | some m => "delete.ok" :: covRemove (m.all.map Layer.digest) (run [Effect.rm (.man n)] st)
+    | .pull reg n m =>
+      let want := m.all.map Layer.digest
+      let dl := covDownloads env reg 0 want st
+      let old := readable st n
+      dl ++ [match old, get st (.man n) with
+        | some _, _ => "pull.replace"
+        | none, some _ => "pull.over-torn"
+        | none, none => "pull.new"] ++
+      (if r.ok then
+        (match old with
+         | some o =>
+           let cand := (o.all.map Layer.digest).filter (fun d => !want.contains d)
+           if cand.isEmpty then ["pullclean.nothing"] else
+           if env.noPrune then ["pullclean.skipped-noprune"] else
+           if (r.effs.any (fun e => match e with | .rm (.blob _) => true | _ => false)) then ["pullclean.rm"] else ["pullclean.kept"]
+         | none => [])
+       else [])
+  variant ++ body ++ [if r.ok then "op.ok" else "op.fail"]
+
+/-- which way the start-up sequence goes on the state after crash `k` -/
+def covRestart (env : Env) (st : Store) : List String :=
+  [if env.noPrune then "restart.noprune" else if allReadable st then "restart.prune" else "restart.gate-skipped"] ++
+  (if (st.any (fun e => match e.1 with | .pfile _ | .part _ _ => true | _ => false)) then ["crashstate.debris"] else []) ++
+  (if (st.any (fun e => match e.1 with | .temp _ => true | _ => false)) then ["crashstate.temp"] else [])
+
 def handle (toks : List String) : Option String :=
   match toks with
   | "effects" :: rest => do
@@ -210,6 +312,13 @@ def handle (toks : List String) : Option String :=
     let st1 := restartWith j.env (run ((j.op.exec j.env j.st).effs.take k) j.st)
     let r := j.op.exec j.env st1
     pure ((if r.ok then "ok " else "fail ") ++ showReadable (run r.effs st1))
+  | "cov" :: rest => do
+    let j ← runTP pJob rest
+    pure (" ".intercalate (covOp j.env j.op j.st))
+  | "covrestart" :: k :: rest => do
+    let k ← k.toNat?
+    let j ← runTP pJob rest
+    pure (" ".intercalate (covRestart j.env (run ((j.op.exec j.env j.st).effs.take k) j.st)))
   | _ => none
 
 end Oracle.C12
